@@ -62,49 +62,49 @@ theorem propTick_pinv (n : Net) {st : HState} {m : DMon} {lt : Option Nat} {now 
     exact fin _ _ hx.1 (fp.covp.of_due_eq hx.2) (fun K A hA => by rw [hx.2] at hA; exact fp.keys K A hA)
 
 theorem propStep_pinv (n : Net) {st : HState} {m : DMon} {lt : Option Nat} {now : Nat} (e : Event)
-    (h : PInv n st m lt now) (hnow : now ≤ evSlot e) :
-    PInv n (propStep n st e).1 (drun .prop n m (propStep n st e).2) (ltAfter lt e) (evSlot e) := by
-  have hem := epoch_mono n hnow
-  have keep : ∀ (st' : HState), (st'.fetchFirst = false → st'.store = st.store ∧ st.fetchFirst = false) →
-      PInv n st' m lt (evSlot e) := by
-    intro st' hst
-    refine ⟨h.ok, fun t ht => Nat.le_trans (h.ltnow t ht) hnow, fun K A hA => by have := h.dueLe K A hA; omega, ?_⟩
+    (h : PInv n st m lt now) (hnow : ∀ s c r1 r2, e = .tick s c r1 r2 → now ≤ s) :
+    PInv n (propStep n st e).1 (drun .prop n m (propStep n st e).2) (ltAfter lt e) (nowAfter now e) := by
+  have keep : ∀ (st' : HState) (now' : Nat), now ≤ now' →
+      (st'.fetchFirst = false → st'.store = st.store ∧ st.fetchFirst = false) → PInv n st' m lt now' := by
+    intro st' now' hle hst
+    have hem := epoch_mono n hle
+    refine ⟨h.ok, fun t ht => Nat.le_trans (h.ltnow t ht) hle, fun K A hA => by have := h.dueLe K A hA; omega, ?_⟩
     intro hff
     obtain ⟨hs, hf⟩ := hst hff
-    by_cases heq : n.epoch (evSlot e) = n.epoch now
+    by_cases heq : n.epoch now' = n.epoch now
     · rw [heq]; exact (h.cov hf).of_store_eq hs
     · apply Cov.of_none
-      cases hd : m.due (n.epoch (evSlot e)) with
+      cases hd : m.due (n.epoch now') with
       | none => rfl
       | some A => have := h.dueLe _ A hd; omega
   cases e with
-  | tick slot clock r1 r2 => exact propTick_pinv n slot clock r1 h hnow
+  | tick slot clock r1 r2 => exact propTick_pinv n slot clock r1 h (hnow slot clock r1 r2 rfl)
   | reorg slot prev cur =>
-    simp only [propStep, propReorg, drun_nil]
+    simp only [propStep, propReorg, drun_nil, ltAfter, nowAfter]
     split
-    · exact keep _ (fun hh => by cases hh)
-    · exact keep _ (fun hh => ⟨rfl, hh⟩)
+    · exact keep _ _ (Nat.le_max_left _ _) (fun hh => by cases hh)
+    · exact keep _ _ (Nat.le_max_left _ _) (fun hh => ⟨rfl, hh⟩)
   | indices clock =>
-    simp only [propStep, propIndices, drun_nil]
-    exact keep _ (fun hh => ⟨rfl, hh⟩)
+    simp only [propStep, propIndices, drun_nil, ltAfter, nowAfter]
+    exact keep _ _ (Nat.le_max_left _ _) (fun hh => ⟨rfl, hh⟩)
 
-theorem prop_exactly_runFrom (n : Net) : ∀ (evs : List Event) (st : HState) (m : DMon) (lt : Option Nat) (now : Nat),
-    PInv n st m lt now → envOK lt now evs = true → (drun .prop n m (runFrom .prop n st evs)).ok = true := by
+theorem prop_exactly_runFrom (n : Net) : ∀ (evs : List Event) (rs : RState) (m : DMon) (lt : Option Nat) (now : Nat),
+    PInv n rs.st m lt now → envOK lt now evs = true → (drun .prop n m (runFrom .prop n rs evs)).ok = true := by
   intro evs
   induction evs with
-  | nil => intro st m lt now h _; exact h.ok
+  | nil => intro rs m lt now h _; exact h.ok
   | cons e es ih =>
-    intro st m lt now h henv
+    intro rs m lt now h henv
     have hnow := envOK_cons henv
     simp only [runFrom, drun_append, step]
-    exact ih _ _ _ _ (propStep_pinv n e h hnow.1) hnow.2.2
+    exact ih _ _ _ _ (propStep_pinv n e h (fun s c r1 r2 he => (hnow.1 s c r1 r2 he).1)) hnow.2
 
 theorem prop_exactly_run (n : Net) (clock0 : Nat) (r0 : FetchRes) (evs : List Event)
     (henv : envOK none clock0 evs = true) : exactlyOnceOK .prop n (run .prop n clock0 r0 evs) = true := by
   unfold exactlyOnceOK run
   obtain ⟨okb, fp⟩ := propFetch_post n ⟨[], true, false, false, false⟩ DMon.init (n.epoch clock0) r0
-  have h0 : PInv n (propInit n clock0 r0).1 (drun .prop n DMon.init (propInit n clock0 r0).2) none clock0 := by
-    simp only [propInit]
+  have h0 : PInv n (initH .prop n clock0 r0).1.st (drun .prop n DMon.init (initH .prop n clock0 r0).2) none clock0 := by
+    simp only [initH, propInit]
     refine ⟨by rw [fp.okeq]; rfl, fun t ht => (nomatch ht), ?_, ?_⟩
     · intro K A hA
       rcases fp.keys K A hA with h1 | h1
@@ -114,6 +114,6 @@ theorem prop_exactly_run (n : Net) (clock0 : Nat) (r0 : FetchRes) (evs : List Ev
       rw [(propFetch_flags _ _ r0).1] at hff
       cases hff
   have := prop_exactly_runFrom n evs _ _ none clock0 h0 henv
-  simpa [initH, drun, List.foldl_append] using this
+  simpa [drun, List.foldl_append] using this
 
 end Ssv.Duties
